@@ -61,7 +61,7 @@ def run(res, replay=None):
         if j_ % 2 == 1 and c['theta'] > 0:
             c['pre_thetas'] = [0.5, 3.0]
     for c in cases:
-        c['perm_items'] = [[rng.choice([1, 2, 3, 8, 9, 11, 16]) for _ in range(rng.randrange(1, 6))] for _ in range(6)] + [[1, 1, 8], [8, 8, 1], [2, 9, 9, 9]]
+        c['perm_items'] = [[rng.choice([1, 2, 3, 8, 9, 11, 16]) for _ in range(rng.randrange(1, 6))] for _ in range(6)] + [[1, 1, 8], [8, 8, 1], [2, 9, 9, 9], [1, 2, 3, 8, 9, 11], [1, 1, 2, 2, 3, 8]]
     outs = C.run_impl_parallel('mutation.py', [{'cases': [c]} for c in cases], timeout=1800)
     bodies, keep = [], []
     for i, (c, o) in enumerate(zip(cases, outs)):
@@ -106,6 +106,10 @@ def run(res, replay=None):
             if sorted(list(x) for x in mpm) != ipm:
                 res.violation('multiset_permutations does not enumerate each distinct ordering exactly once',
                               {'case': c, 'items': items, 'model': sorted(list(x) for x in mpm)[:6], 'observed': ipm[:6]})
+        for items, a_, b_ in zip(c['perm_items'], r['perms'], r.get('perms_again', r['perms'])):
+            if a_ != b_:
+                res.violation('multiset_permutations returns another set of orderings when the same multiset is requested again',
+                              {'case': c, 'items': items, 'first': len(a_), 'second': len(b_)})
         mconfigs = C.parse_term(vals[2])
         munfold = C.parse_term(vals[3])
         n = sum(r['dump']['config'])
